@@ -15,6 +15,7 @@ import (
 	"io"
 	"net"
 	"strings"
+	"sync"
 
 	"github.com/kardiachain/go-kardia/lib/log"
 	"github.com/kardiachain/go-kardia/lib/p2p/conn"
@@ -89,7 +90,22 @@ func sizeName(n, capacity int) string {
 	return "other"
 }
 
+var msgCache sync.Map
+
+// msgBytes is the content of the i-th message of a case (read-only, shared between cases).
 func msgBytes(i int, m mMsg) []byte {
+	k := [3]int{i, int(m.Ch), m.Size}
+	if v, ok := msgCache.Load(k); ok {
+		return v.([]byte)
+	}
+	b := makeMsgBytes(i, m)
+	if m.Size <= 1<<16 {
+		msgCache.Store(k, b)
+	}
+	return b
+}
+
+func makeMsgBytes(i int, m mMsg) []byte {
 	b := make([]byte, m.Size)
 	for j := range b {
 		b[j] = byte(i*53 + int(m.Ch)*17 + j*5 + (j >> 8) + 1)
@@ -411,6 +427,14 @@ func runMconn(s mconnSpec) (fs []finding, obs mconnObs) {
 
 	// ---- receiver oracle, against the reference receiver on the same bytes
 	obs.ref = referenceReceive(pkts, garbage, capacity, true)
+	if s.Raw == "alias-channel" || s.Raw == "oversize-packet" || s.Raw == "empty-packet" {
+		// observed only (see the assumptions): what the receiver does with these is not part of the property
+		if obs.recvClass == "panic" {
+			add("mconn:recv:"+s.Raw, "panic", fmt.Sprint(obs.recvErr))
+		}
+		obs.outcome = fmt.Sprintf("observed real=%s delivered=%d", classHead(obs.recvClass), len(obs.got))
+		return
+	}
 	exp, real := perChannel(obs.ref.delivered), perChannel(obs.got)
 	for _, ch := range chanIDs {
 		w, g := exp[ch], real[ch]
